@@ -364,24 +364,31 @@ func c11Build(s *simcore.Source) c11Scenario {
 			"  finalizers:\n    - id: echo\n      type: header\n      config:\n        headers:\n          X-User: \"{{ .Subject.ID }}\"\n          X-Digest: \"{{ .Subject.Attributes.digest }}\"\n"
 		step := "    - authenticator: mut\n    - finalizer: echo"
 		step2 := step
-		if s.Draw(3, "twin-mechanism") == 2 {
-			// a second catalogue entry on the same endpoint that differs only in the value of one header (spelled in lower case, as yaml authors do)
-			sc.twin = "x-tenant"
+		if tw := s.Draw(5, "twin-mechanism"); tw == 2 || tw == 3 {
+			// a second catalogue entry on the same endpoint that differs only in the value of one header (spelled in lower
+			// case, as yaml authors do), or only in the payload sent to the endpoint
+			sc.twin = map[int]string{2: "x-tenant", 3: "payload"}[tw]
 			twinOf := func(id, tenant string) string {
 				h2 := map[string]string{}
 				for k, v := range hdrs {
 					h2[k] = v
 				}
-				h2["x-tenant"] = tenant
-				k2 := append(append([]string{}, keys...), "x-tenant")
+				k2 := append([]string{}, keys...)
+				payload := ""
+				if sc.twin == "x-tenant" {
+					h2["x-tenant"] = tenant
+					k2 = append(k2, "x-tenant")
+				} else {
+					payload = "        payload: \"realm=" + tenant + "\"\n"
+				}
 				return "    - id: " + id + "\n      type: generic\n      config:\n        identity_info_endpoint:\n          url: http://idp/userinfo\n          method: GET\n          headers:\n" +
-					yamlMap("            ", k2, h2) +
+					yamlMap("            ", k2, h2) + payload +
 					"        authentication_data_source:\n          - header: Authorization\n            scheme: Bearer\n        subject:\n          id: sub\n          attributes: \"@this\"\n        cache_ttl: 5m\n" + fwd
 			}
 			sc.mech = "mechanisms:\n  authenticators:\n" + twinOf("mut", "a") + twinOf("mut2", "b") +
 				"  finalizers:\n    - id: echo\n      type: header\n      config:\n        headers:\n          X-User: \"{{ .Subject.ID }}\"\n          X-Digest: \"{{ .Subject.Attributes.digest }}\"\n"
 			step2 = "    - authenticator: mut2\n    - finalizer: echo"
-			sc.overrides = "twin-mechanism(x-tenant)"
+			sc.overrides = "twin-mechanism(" + sc.twin + ")"
 		}
 		sc.rules = fmt.Sprintf(c11RuleTpl, step, step2)
 		sc.describe = fmt.Sprintf("headers=%v fwd=%v twin=%q", keys, fwd != "", sc.twin)
